@@ -57,6 +57,36 @@ def noSurvivors (ops : List Op) (o : Obs) : Bool :=
 def Spec (ops : List Op) (o : Obs) : Bool :=
   oneTerminal o.emits && nothingAfter o.emits && killedNotFailed ops o && noStuck o.res && noSurvivors ops o
 
+/-- Scanning a schedule with its results: was a STOP answered (whatever the answer) and no child started since?
+    A STOP is answered with `resp` exactly when it reached the active task; a START that spawned answers
+    `resp RUNNING false`. -/
+def stopFlag (flag : Bool) (op : Op) (r : Res) : Bool :=
+  match op, r with
+  | .stop, .resp _ _ => true
+  | .start, .resp .RUNNING false => false
+  | _, _ => flag
+
+def stoppedFrom (flag : Bool) : List Op → List Res → Bool
+  | op :: ops, r :: rs => stoppedFrom (stopFlag flag op r) ops rs
+  | _, _ => flag
+
+/-- the schedule ends with the basic task stopped (`rs` starts with the result of LAUNCH) -/
+def stoppedLast (ops : List Op) (rs : List Res) : Bool :=
+  match rs with
+  | [] => false
+  | _ :: rs => stoppedFrom false ops rs
+
+/-- "Stopping a basic task … terminates the whole process group": once a STOP has been answered and no child
+    was started after it, no process of the task is alive (and the run did not end half-way). Says nothing about
+    how the STOP was answered: a STOP that reports an error and leaves the child running violates it. -/
+def stopTerminates (k : Kind) (ops : List Op) (o : Obs) : Bool :=
+  !(k == .basic && stoppedLast ops o.res) || o.alive == some false
+
+/-- The whole property: the five clauses of `Spec` and `stopTerminates`. The observation it is evaluated on must
+    not depend on the command shape (shell or not, arguments or not): the input's shape is not an argument. -/
+def SpecAll (k : Kind) (ops : List Op) (o : Obs) : Bool :=
+  Spec ops o && stopTerminates k ops o
+
 /-! ### request states the code does not survive / does not serve (excluded hypotheses) -/
 
 /-- finding `stop_unreaped_basic_panics` (repaired): STOP reaches a basic task whose taskCmd has no ProcessState yet
@@ -95,6 +125,14 @@ def killArmed (s : St) (op : Op) : Bool :=
 /-- `killArmed` as far as the code at hand still has the defect: none once Kill stops the timer. -/
 def killArmedIn (c : Cfg) (s : St) (op : Op) : Bool :=
   !c.killStopsTimer && killArmed s op
+
+/-- finding `basic_stop_spares_helpers`: STOP reaches a basic task some of whose processes are out of the reach of
+    ensureBasicTaskKilled, which SIGKILLs the group of the latest child and only while that child has not been
+    reaped: children orphaned by a restart, helpers in the groups of earlier children, and helpers in the group of
+    a latest child that has already ended (ProcessState != nil: "nothing to do"). -/
+def stopSpares (s : St) (op : Op) : Bool :=
+  op = .stop && s.kind = .basic && s.active &&
+    (s.orphans > 0 || (if s.child = .running then s.helpersOld else s.helpers))
 
 /-- finding `ctl_kill_spares_helpers`: KILL reaches a ready controllable task that has forked helpers. -/
 def killHelpers (s : St) (op : Op) : Bool :=
